@@ -6,7 +6,7 @@ from core import Case
 PROP = 'C05'
 COQ_TARGETS = ['theories/SsmFacts.vo', 'theories/SsmC05.vo']
 COQ_IMPORTS = S.COQ_IMPORTS
-RULE = ('cases: fault-free transfers of every request / response length 0..4*50+2 at max-APDU 50 (and boundary lengths at 128, 206; '
+RULE = ('direct also: fault-free two-way exchanges (two stations client and server towards each other at the same moment with equal invoke ids, segmented replies) judged against each request run alone; cases: fault-free transfers of every request / response length 0..4*50+2 at max-APDU 50 (and boundary lengths at 128, 206; '
         'thorough: 480, 1024, 1476) with windows cycling 1..8 on both sides; every single fault (drop, duplicate, 500 ms delay, late '
         'duplicate) at every frame of seeded transfers; transfers of 255..258 segments; random multi-fault runs; SSM.in_window on a '
         'grid of sequence numbers and windows.  Compared per scenario: the whole canonical trace (frames with sequence number, '
@@ -157,6 +157,42 @@ def single_fault_eval(spec):
              'outcomes': [[x[1][4], x[1][7]] for x in o], 'garbage': bool(garbage), 'spec': spec}]
 
 
+def fault_free_both_ways(rng, n, stats):
+    """no fault on the wire, two stations that are client and server towards each other at the same moment (both count their
+    invoke ids from 1, so equal ids are live in both directions), at least one segmented transfer: every request must end exactly
+    as it ends when it is the only traffic (oracle: the same request run alone), with the payload untouched"""
+    failures = []
+    for _ in range(n):
+        cmax = rng.choice([50, 128])
+        mk = lambda a: S.node_cfg(a, maxApdu=cmax, window=rng.randrange(1, 4), retries=rng.choice([1, 2]), apduTimeout=3000,
+                                  segTimeout=rng.choice([500, 1500]), appTimeout=6000)
+        nodes = [mk(1), mk(2)]
+        reqs = []
+        for src, dst in ((1, 2), (2, 1)):
+            big = rng.random() < 0.7
+            kind = rng.choice(['complex', 'complex', 'complex', 'simple'])
+            resp = ['complex', rng.choice([cmax + 7, 2 * cmax + 3, 3 * cmax + 1]) if big else rng.choice([3, cmax - 5])] if kind == 'complex' else ['simple']
+            reqs.append({'t': 0, 'src': src, 'dst': dst, 'len': rng.choice([2, 5, cmax + 5, 2 * cmax + 1]), 'service': 12,
+                         'resp': resp, 'resp_delay': rng.choice([0, 0, 125])})
+        spec = {'nodes': nodes, 'requests': reqs}
+        tr = S.run_scenario(spec)
+        stats['evaluations'] += 1
+        res, un, sub = S.request_outcomes(tr)
+        for no, r in enumerate(reqs):
+            solo = S.run_scenario({'nodes': nodes, 'requests': [r]})
+            sres, _, _ = S.request_outcomes(solo)
+            want = [(x[1][4], bytes(x[1][6]) if x[1][6] is not None else None, x[1][7]) for x in sres.get(0, [])]
+            got = [(x[1][4], bytes(x[1][6]) if x[1][6] is not None else None, x[1][7]) for x in res.get(no, [])]
+            # the payload generator numbers requests: compare type / reason and, for the solo run's number 0, lengths only
+            wl = [(a, None if b is None else len(b), c) for a, b, c in want]
+            gl = [(a, None if b is None else len(b), c) for a, b, c in got]
+            if wl != gl:
+                failures.append({'kind': 'fault-free-transfer-differs-from-solo-run', 'req': no, 'alone': [list(x) for x in wl],
+                                 'both_ways': [list(x) for x in gl], 'spec': spec})
+        failures.extend(x for x in S.check_c05(tr) if x['kind'] in ('request-payload-differs', 'response-payload-differs'))
+    return failures
+
+
 def direct(rng, tier, focus=()):
     big = tier == 'thorough'
     fams = [('transaction', lambda r: S.gen_transaction(r, big=r.random() < 0.15, maxfaults=4), 80000 if big else 2500),
@@ -172,6 +208,7 @@ def direct(rng, tier, focus=()):
             f['max_nsegs'] = S.max_transfer_segments(tr)
         failures.extend(fs)
     failures.extend(single_fault_failures(rng, 600 if big else 25, stats))
+    failures.extend(fault_free_both_ways(rng, 2000 if big else 150, stats))
     # the whole request is transferred, the one-frame reply is lost: the retry of a segmented request
     for _ in range(1500 if big else 150):
         spec = S.gen_request_tail(rng, 'A')
